@@ -214,6 +214,11 @@ def run_case(job):
                     if k is None:
                         found_plain = True
                     break
+                if rr.get('status') not in ('ok',):
+                    # the replay itself failed (harness-side error, crash): never counted as 'spurious'
+                    info['cands'].append(('undecided', None, {'detail': 'replay %s: %s' % (rr.get('status'), str(rr.get('detail'))[-300:])}))
+                    res['replay_errors'] = res.get('replay_errors', 0) + 1
+                    break
                 res['spurious'] += 1
                 if len(res.setdefault('spurious_examples', [])) < 3:
                     res['spurious_examples'].append({'query': str(q)[:1500], 'inputs': spec.enc(inp_c), 'replay': rr})
